@@ -99,6 +99,9 @@ struct ClassDef
     // the Payload base (legal calls; the typed accessors are members of the static class and must not care). Returns a
     // description of the call.
     std::function<std::string(Subject&, uint64_t)> retag;
+    // getters that are derived from several fields (formatted strings): returns a description of the first one that does not
+    // follow from the raw image, or an empty string
+    std::function<std::string(const Subject&, const Bytes&)> derived;
 };
 
 inline uint64_t beWord(const Bytes& r, size_t off, size_t width)
@@ -655,6 +658,18 @@ inline std::vector<ClassDef> buildClasses()
         t.word("silliconTemp", 35, 1, VF_G(T, o.getSilliconTemp()), VF_S(T, o.setSilliconTemp(static_cast<uint8_t>(v))));
         t.reserved(3, 1, 0xFF);
         t.reserved(12, 1, 0xFF);
+        t.def.derived = [](const Subject& x, const Bytes& raw) -> std::string {
+            const T& o = static_cast<const Subj<T>&>(x).obj;
+            if (raw.size() < 18)
+                return "";
+            std::string sw = "v" + std::to_string(raw[13]) + "." + std::to_string(raw[14]) + "." + std::to_string(raw[15]);
+            std::string hw = "v" + std::to_string(raw[16]) + "." + std::to_string(raw[17]);
+            if (o.getSwVersion() != sw)
+                return "getSwVersion() returns \"" + o.getSwVersion() + "\", the fields hold " + sw;
+            if (o.getHwVersion() != hw)
+                return "getHwVersion() returns \"" + o.getHwVersion() + "\", the fields hold " + hw;
+            return "";
+        };
         t.def.name = "TECMP::CaptureModulePayload";
         t.def.tableSize = 36;
         t.def.realBytes = true;
